@@ -35,7 +35,12 @@ func genC10(seed uint64, run int, tier string) *drv.Plan {
 	r := sim.Sub(seed, "C10", run)
 	switch x := r.Intn(10); {
 	case x < 6:
-		p := genPlan("C10", seed, run, c10Bias(tier))
+		b := c10Bias(tier)
+		if run%8 == 5 {
+			// the empty key is a legal key of the tree (index-less handles only)
+			b.EmptyKey, b.FastNever = 100, true
+		}
+		p := genPlan("C10", seed, run, b)
 		p.Mode = "fidelity"
 		big := 400
 		if tier == "thorough" {
